@@ -201,6 +201,9 @@ def bounded(tier, seed, repo_root):
         for b in base:
             for o in gt.OPTION_COMBOS:
                 jobs.append(('json', a, b, o))
+    for a, b in D.hash_collision_pairs():      # distinct values with equal Python hashes (-1 / -2, n / n + 2**61 - 1)
+        for o in gt.OPTION_COMBOS[::2]:
+            jobs.append(('json', a, b, o))
     xs = gt.xml_specs()
     for a in xs:
         for b in xs:
